@@ -787,6 +787,104 @@ func AnyDecompress(alg string, p []byte) ([]byte, error) {
 		return XorDecode(0xA1, p)
 	case "rev":
 		return XorDecode(0xA3, p)
+	case "rle":
+		var out []byte
+		for len(p) >= 5 {
+			n := int(p[0])<<24 | int(p[1])<<16 | int(p[2])<<8 | int(p[3])
+			if n > 64<<20 {
+				return nil, errors.New("rle: run too long for the reference")
+			}
+			out = append(out, bytes.Repeat([]byte{p[4]}, n)...)
+			p = p[5:]
+		}
+		if len(p) != 0 {
+			return nil, errors.New("rle: truncated pair")
+		}
+		return out, nil
 	}
 	return nil, fmt.Errorf("reference has no algorithm %q", alg)
+}
+
+// Run-length "compression" (algorithm name "rle"): the compressed form is a
+// sequence of (count uint32 big-endian, byte) pairs.  Unlike DEFLATE it has no
+// bound on its expansion ratio: a handful of bytes inflate to any size.
+
+// RLEEncode is the reference encoder.
+func RLEEncode(p []byte) []byte {
+	var out []byte
+	for i := 0; i < len(p); {
+		j := i
+		for j < len(p) && p[j] == p[i] {
+			j++
+		}
+		n := j - i
+		out = append(out, byte(n>>24), byte(n>>16), byte(n>>8), byte(n), p[i])
+		i = j
+	}
+	return out
+}
+
+type rleDecompressor struct {
+	src   io.Reader
+	left  int
+	b     byte
+	fatal error
+}
+
+func (r *rleDecompressor) Read(p []byte) (int, error) {
+	if r.fatal != nil {
+		return 0, r.fatal
+	}
+	n := 0
+	for n < len(p) {
+		if r.left == 0 {
+			var pair [5]byte
+			if _, err := io.ReadFull(r.src, pair[:]); err != nil {
+				if err == io.EOF && n > 0 {
+					return n, nil
+				}
+				if err == io.ErrUnexpectedEOF {
+					r.fatal = errors.New("rle: truncated pair")
+					err = r.fatal
+				}
+				return n, err
+			}
+			r.left = int(pair[0])<<24 | int(pair[1])<<16 | int(pair[2])<<8 | int(pair[3])
+			r.b = pair[4]
+			continue
+		}
+		k := len(p) - n
+		if k > r.left {
+			k = r.left
+		}
+		for i := 0; i < k; i++ {
+			p[n+i] = r.b
+		}
+		n += k
+		r.left -= k
+	}
+	return n, nil
+}
+func (r *rleDecompressor) Close() error { return nil }
+func (r *rleDecompressor) Reset(src io.Reader) error {
+	r.src, r.left, r.fatal = src, 0, nil
+	return nil
+}
+
+type rleCompressor struct {
+	w   io.Writer
+	buf []byte
+}
+
+func (r *rleCompressor) Write(p []byte) (int, error) { r.buf = append(r.buf, p...); return len(p), nil }
+func (r *rleCompressor) Close() error {
+	_, err := r.w.Write(RLEEncode(r.buf))
+	r.buf = r.buf[:0]
+	return err
+}
+func (r *rleCompressor) Reset(w io.Writer) { r.w, r.buf = w, r.buf[:0] }
+
+// RLEAlg returns the constructors of the run-length algorithm.
+func RLEAlg() (func() connect.Decompressor, func() connect.Compressor) {
+	return func() connect.Decompressor { return &rleDecompressor{} }, func() connect.Compressor { return &rleCompressor{} }
 }
